@@ -74,19 +74,22 @@ def run(ctx):
             d = by_site.setdefault(k, {"site": inner, "anchors": {}, "why": x.why, "exc": x.exc})
             ok = in_family(prog, x.exc, allowed_extra)
             d["anchors"].setdefault(q, (ok, x))
-            if is_pred:
+            if is_pred and not ok:
+                # (a predicate that rejects an ill-typed *option* with TypeError / ValueError stays
+                # inside the documented families; agreement of the six predicate / raiser pairs on
+                # every input is C15-R4)
                 ctx.ob(
                     "R4",
                     "predicate-raises|%s|%s|%s" % (q, x.exc, inner.key()),
                     loc(inner),
-                    "predicate %s may raise %s (%s) instead of returning a boolean" % (q, x.exc, x.why),
+                    "predicate %s may raise %s (%s), an error outside the documented families, instead of returning a boolean" % (q, x.exc, x.why),
                     False,
                     {"call chain": " <- ".join(loc(s) for s in x.chain), "path conditions": sorted(show_fact(c) for c in conds)[:12]},
                 )
         if is_pred:
             ctx.count("R4.predicates")
-            if not sm.escapes:
-                ctx.ob("R4", "predicate-total|%s" % q, loc(prog.site(prog.func(q).mod, prog.func(q).node)), "predicate %s has an empty escape set on all %d paths" % (q, sm.npaths), True)
+            if not [1 for x_, _c in sm.escapes if not in_family(prog, x_.exc, allowed_extra)]:
+                ctx.ob("R4", "predicate-total|%s" % q, loc(prog.site(prog.func(q).mod, prog.func(q).node)), "predicate %s raises nothing outside the documented families on its %d paths" % (q, sm.npaths), True)
     for (exc, skey), d in sorted(by_site.items()):
         bad = sorted(a for a, (ok, _x) in d["anchors"].items() if not ok)
         good = sorted(a for a, (ok, _x) in d["anchors"].items() if ok)
